@@ -71,7 +71,7 @@ def op(name, ragged=True, dup=False, min_fields=1):
 class Cut:
     @staticmethod
     def args(draw, t):
-        return {"spec": fieldspec(draw, t[0]), "missing": draw(st.sampled_from([None, "M"]))}
+        return {"spec": fieldspec(draw, t[0]), "missing": draw(st.sampled_from([None, "M", None, "M", 0, "", False]))}
 
     @staticmethod
     def run(t, a):
@@ -87,7 +87,7 @@ class Cut:
 class CutOut:
     @staticmethod
     def args(draw, t):
-        return {"spec": fieldspec(draw, t[0], max_n=2), "missing": draw(st.sampled_from([None, "M"]))}
+        return {"spec": fieldspec(draw, t[0], max_n=2), "missing": draw(st.sampled_from([None, "M", None, "M", 0, "", False]))}
 
     @staticmethod
     def run(t, a):
@@ -125,7 +125,7 @@ class Cat:
     def args(draw, t):
         h2 = draw(st.lists(st.sampled_from(list(t[0]) + ["p", "q"]), min_size=1, max_size=3, unique=True))
         t2 = draw(gen.table(h2, [CELL] * len(h2), max_rows=3, ragged=True))
-        a = {"t2": t2, "missing": draw(st.sampled_from([None, "M"]))}
+        a = {"t2": t2, "missing": draw(st.sampled_from([None, "M", None, "M", 0, "", False]))}
         if draw(st.integers(0, 2)) == 0:
             a["header"] = draw(st.lists(st.sampled_from(list(t[0]) + h2 + ["zz"]), min_size=1, max_size=4, unique=True))
         if draw(st.integers(0, 3)) == 0:
@@ -150,7 +150,7 @@ class Stack:
     @staticmethod
     def args(draw, t):
         h2 = draw(gen.header(min_n=1, max_n=4, unique=False))
-        return {"t2": draw(gen.table(h2, [CELL] * len(h2), max_rows=3, ragged=True)), "missing": draw(st.sampled_from([None, "M"])),
+        return {"t2": draw(gen.table(h2, [CELL] * len(h2), max_rows=3, ragged=True)), "missing": draw(st.sampled_from([None, "M", None, "M", 0, "", False])),
                 "trim": draw(st.booleans()), "pad": draw(st.booleans())}
 
     @staticmethod
@@ -167,7 +167,7 @@ class Annex:
     @staticmethod
     def args(draw, t):
         h2 = draw(gen.header(min_n=1, max_n=3, unique=False))
-        return {"t2": draw(gen.table(h2, [CELL] * len(h2), max_rows=5, ragged=True)), "missing": draw(st.sampled_from([None, "M"]))}
+        return {"t2": draw(gen.table(h2, [CELL] * len(h2), max_rows=5, ragged=True)), "missing": draw(st.sampled_from([None, "M", None, "M", 0, "", False]))}
 
     @staticmethod
     def run(t, a):
@@ -183,7 +183,7 @@ class AddField:
     @staticmethod
     def args(draw, t):
         return {"value": draw(st.sampled_from(["const", "calc"])), "index": draw(st.one_of(st.none(), st.integers(-len(t[0]) - 1, len(t[0]) + 2))),
-                "missing": draw(st.sampled_from([None, "M"]))}
+                "missing": draw(st.sampled_from([None, "M", None, "M", 0, "", False]))}
 
     @staticmethod
     def run(t, a):
@@ -211,7 +211,7 @@ class AddFields:
     def args(draw, t):
         n = len(t[0])
         return {"defs": [[nm, draw(st.sampled_from(["const", "calc"]))] + ([draw(st.integers(0, n + 1))] if draw(st.booleans()) else [])
-                         for nm in ["n1", "n2"][:draw(st.integers(1, 2))]], "missing": draw(st.sampled_from([None, "M"]))}
+                         for nm in ["n1", "n2"][:draw(st.integers(1, 2))]], "missing": draw(st.sampled_from([None, "M", None, "M", 0, "", False]))}
 
     @staticmethod
     def run(t, a):
@@ -242,7 +242,7 @@ class AddColumn:
     @staticmethod
     def args(draw, t):
         return {"col": draw(st.lists(st.integers(0, 9), max_size=len(t) + 1)), "index": draw(st.one_of(st.none(), st.integers(0, len(t[0]) + 1))),
-                "missing": draw(st.sampled_from([None, "M"]))}
+                "missing": draw(st.sampled_from([None, "M", None, "M", 0, "", False]))}
 
     @staticmethod
     def run(t, a):
@@ -400,7 +400,7 @@ class PrefixSuffix:
 class SortHeader:
     @staticmethod
     def args(draw, t):
-        return {"reverse": draw(st.booleans()), "missing": draw(st.sampled_from([None, "M"]))}
+        return {"reverse": draw(st.booleans()), "missing": draw(st.sampled_from([None, "M", None, "M", 0, "", False]))}
 
     @staticmethod
     def run(t, a):
@@ -705,7 +705,7 @@ class Accessors:
     @classmethod
     def args(cls, draw, t):
         return {"which": cls.which,
-                "field": fieldspec(draw, t[0], max_n=2, min_n=2) if len(t[0]) >= 2 else None, "missing": draw(st.sampled_from([None, "M"])),
+                "field": fieldspec(draw, t[0], max_n=2, min_n=2) if len(t[0]) >= 2 else None, "missing": draw(st.sampled_from([None, "M", None, "M", 0, "", False])),
                 "slice": draw(st.sampled_from([None, [1, None], [0, 2]]))}
 
     @staticmethod
